@@ -356,17 +356,46 @@ def gen_cbc(aes, w):
     need(re.search(r"if\s*\(\s*k\.size\(\)\s*!=\s*key_size\(\)\s*\)\s*throw\s+booster::invalid_argument\(", body), "cbc set_key size test")
     body = function_body(cls, r"void\s+set_iv\s*\(\s*void\s+const\s*\*\s*ptr\s*,\s*size_t\s+size\s*\)\s*\{")
     need(re.search(r"if\s*\(\s*size\s*!=\s*sizeof\(iv_enc_\)\s*\)\s*throw\s+booster::invalid_argument\(", body), "cbc set_iv size test")
-    need(re.search(r"memcpy\(iv_enc_,ptr,size\)\s*;\s*memcpy\(iv_dec_,ptr,size\)\s*;\s*iv_initialized_\s*=\s*true\s*;", body), "cbc set_iv copies")
+    SLOT = {"iv_enc_": 0, "iv_dec_": 1}
+    m = need(re.fullmatch(r"\s*if\s*\(\s*size\s*!=\s*sizeof\(iv_enc_\)\s*\)\s*throw\s+booster::invalid_argument\([^;]*\)\s*;"
+                          r"(?P<copies>(?:\s*memcpy\(\w+,ptr,size\)\s*;)*)\s*iv_initialized_\s*=\s*true\s*;\s*", body), "cbc set_iv: statement skeleton")
+    targets = re.findall(r"memcpy\((\w+),ptr,size\)", m.group("copies"))
+    if any(t not in SLOT for t in targets):
+        raise Untranslatable("cbc set_iv copies into " + str(targets))
     iv = need(re.search(r"unsigned\s+char\s+iv_enc_\[(\d+)\]\s*;\s*unsigned\s+char\s+iv_dec_\[(\d+)\]\s*;", cls), "cbc iv arrays")
     if iv.group(1) != iv.group(2):
         raise Untranslatable("cbc iv arrays differ in size")
+    body = function_body(cls, r"void\s+set_nonce_iv\s*\(\s*\)\s*\{")
+    gens = re.findall(r"rnd\.generate\((\w+),sizeof\((\w+)\)\)\s*;", body)
+    if [g[0] for g in gens] != ["iv_enc_", "iv_dec_"] or any(a != b for a, b in gens) or not re.search(r"iv_initialized_\s*=\s*true\s*;", body):
+        raise Untranslatable("cbc set_nonce_iv")
+    body = function_body(cls, r"void\s+reset\s*\(\s*\)\s*\{")
+    if not (re.search(r"memset\(iv_dec_,0,sizeof\(iv_dec_\)\)\s*;", body) and re.search(r"memset\(iv_enc_,0,sizeof\(iv_(enc|dec)_\)\)\s*;", body)
+            and re.search(r"iv_initialized_\s*=\s*false\s*;", body)):
+        raise Untranslatable("cbc reset()")
     body = function_body(cls, r"void\s+check\s*\(\s*\)\s*\{")
     need(re.fullmatch(r"\s*if\s*\(\s*key_\.size\(\)\s*==\s*0\s*\)\s*throw\s+booster::runtime_error\([^;]*without key[^;]*\)\s*;"
                       r"\s*if\s*\(\s*!iv_initialized_\s*\)\s*throw\s+booster::runtime_error\([^;]*without initial vector[^;]*\)\s*;\s*", body), "cbc check()")
-    for fn, var, flag in (("encrypt", "iv_enc_", "AES_ENCRYPT"), ("decrypt", "iv_dec_", "AES_DECRYPT")):
+    calls = {}
+    for fn, sched, setk, flagv in (("encrypt", "key_enc_", "AES_set_encrypt_key", "encryption_initialized_"),
+                                   ("decrypt", "key_dec_", "AES_set_decrypt_key", "decryption_initialized_")):
         body = function_body(cls, r"virtual\s+void\s+" + fn + r"\s*\(\s*void\s+const\s*\*\s*in\s*,\s*void\s*\*\s*out\s*,\s*unsigned\s+len\s*\)\s*\{")
-        need(re.match(r"\s*check\(\)\s*;", body), "cbc " + fn + " does not start with check()")
-        need(re.search(r"AES_cbc_encrypt\([^;]*" + var + r"\s*,\s*" + flag + r"\s*\)\s*;", body, re.S), "cbc " + fn + ": AES_cbc_encrypt with " + var)
+        # the whole body: check(); lazy key schedule; exactly one AES_cbc_encrypt(in, out, len, &<schedule>, <ivec>, <direction>)
+        m = need(re.fullmatch(r"\s*check\(\)\s*;\s*if\s*\(\s*!" + flagv + r"\s*\)\s*\{\s*" + setk +
+                              r"\(reinterpret_cast<unsigned char const \*>\(key_\.data\(\)\),\s*type_,\s*&" + sched + r"\)\s*;\s*" + flagv + r"\s*=\s*true\s*;\s*\}"
+                              r"\s*AES_cbc_encrypt\(\s*reinterpret_cast<unsigned char const \*>\(in\)\s*,\s*reinterpret_cast<unsigned char \*>\(out\)\s*,\s*len\s*,"
+                              r"\s*&" + sched + r"\s*,\s*(?P<ivec>\w+)\s*,\s*(?P<dir>AES_ENCRYPT|AES_DECRYPT)\s*\)\s*;\s*", body),
+                 "cbc " + fn + ": statement skeleton (check, key schedule, one AES_cbc_encrypt on a member IV)")
+        if m.group("ivec") not in SLOT:
+            raise Untranslatable(f"cbc {fn}: AES_cbc_encrypt is given {m.group('ivec')} as ivec, not one of the object's running IVs")
+        calls[fn] = (SLOT[m.group("ivec")], m.group("dir") == "AES_ENCRYPT")
+    w("/-- the object's IV members: 0 = `iv_enc_`, 1 = `iv_dec_`.  `set_iv` copies the caller's IV into these, in this order -/")
+    w("def cbcSetIvTargets : List Nat := " + lean_bytes([SLOT[t] for t in targets]))
+    w("/-- which member `encrypt` / `decrypt` hand to `AES_cbc_encrypt` as the in/out `ivec`, and the direction flag (true = AES_ENCRYPT) -/")
+    w(f"def cbcEncIvec : Nat := {calls['encrypt'][0]}")
+    w(f"def cbcEncDir : Bool := {'true' if calls['encrypt'][1] else 'false'}")
+    w(f"def cbcDecIvec : Nat := {calls['decrypt'][0]}")
+    w(f"def cbcDecDir : Bool := {'true' if calls['decrypt'][1] else 'false'}")
     w(f"def cbcKeySize (type_ : Nat) : Nat := {c_to_lean(ks)}")
     w(f"def cbcBlockSize : Nat := {bs}")
     w(f"def cbcIvSize : Nat := {iv.group(1)}")
